@@ -40,6 +40,13 @@ def sources(tier, d, rng):
         out.append(('asm', 'unusual%d' % k, "\n".join(p) + "\n"))
     for s in corpus.repo_sources_asm():
         out.append(('asm', 'file:' + os.path.basename(s), open(s, encoding='latin-1').read()))
+    # several entry points at one address (tables keyed by address must not fall back on where the heap put things), and listings
+    # that show numbers of four and more digits (offsets, operands, sizes, constants)
+    out.append(('asm', 'file:alias1', "BR go\nDATA 100\nPROC putc\nPROC putchar\nFUNC zz\ngo\nLDAC 0\nOPR BRB\nPROC stop\nPROC halt\nFUNC aa\nLDAC 1\nOPR BRB\n"))
+    out.append(('asm', 'file:alias2', "".join("PROC p%d\n" % i for i in range(40, 0, -1)) + "LDAC 0\n" + "".join("FUNC f%s\n" % c for c in "zyxwvutsrq") + "OPR BRB\n"))
+    out.append(('asm', 'file:bignum', "BR go\nDATA 123456\ngo\n" + "LDAC 100000\n" * 300 + "LDBC -1234567\nBR go\n"))
+    big = xlib.std_program(xlib.seq([xlib.ass(xlib.var('x'), xlib.num(1000000 + i)) for i in range(260)] + [xlib.exit_(xlib.var('x'))]))
+    out.append(('x', 'file:bignum', xlib.src_of(big)))
     return out
 
 
@@ -89,7 +96,13 @@ def run(tier, replay=None):
         tdir = corpus.tools()
         sample = [it for it in items if bykey[it[0]][1].startswith(('file:', 'valorder'))] + rng.sample(items, min(len(items), 150 if tier == "quick" else 3000))
         have_setarch = shutil.which("setarch") is not None
-        envs = [("plain", {}, False), ("perturb85+bigenv", {"MALLOC_PERTURB_": "85", "PAD": "x" * 60000}, False), ("perturb170", {"MALLOC_PERTURB_": "170"}, have_setarch)]
+        envs = [("plain", {}, False), ("perturb85+bigenv", {"MALLOC_PERTURB_": "85", "PAD": "x" * 60000}, False), ("perturb170", {"MALLOC_PERTURB_": "170"}, have_setarch),
+                ("mmap-everything", {"GLIBC_TUNABLES": "glibc.malloc.mmap_threshold=0", "MALLOC_MMAP_THRESHOLD_": "0"}, False),
+                ("top-pad", {"MALLOC_TOP_PAD_": "1048576", "MALLOC_ARENA_MAX": "1", "TZ": "Pacific/Kiritimati", "HOME": "/nonexistent", "COLUMNS": "7"}, False)]
+        gl = vlib.grouping_locale()
+        chk.set("locale_with_digit_grouping", bool(gl))
+        if gl:
+            envs.append(("locale", {"LOCPATH": gl[0], "LC_ALL": gl[1], "LANG": gl[1], "LC_NUMERIC": gl[1]}, False))
         nproc = 0
         for k, (kind, sid, src) in sample:
             wd = os.path.join(d, "exe"); shutil.rmtree(wd, ignore_errors=True); os.makedirs(wd)
